@@ -74,13 +74,12 @@ impl BigUint {
 //@ extract src/biguint.rs :: impl PartialEq for BigUint :: fn eq rules=R0,R14 props=C04
     fn eq(&self, other: &BigUint) -> /*+*/(r: /*-*/bool/*+*/)/*-*/
 //+{
-        requires self.wf(), other.wf()
-        ensures r == (self.v() == other.v())
+        ensures self.wf() && other.wf() ==> r == (self.v() == other.v())
 //+}
     {
 //+{
         proof {
-            if self.v() == other.v() { lemma_canonical_unique(self.data@, other.data@); }
+            if self.wf() && other.wf() && self.v() == other.v() { lemma_canonical_unique(self.data@, other.data@); }
         }
 //+}
         /*+*/let r = /*-*/self.data == other.data/*+*/;
